@@ -162,7 +162,7 @@ main(int argc, char **argv)
 		if (sc.chain_kind == 2 && !full16k && (idx % 3) != 0) sc.chain_kind = 1;
 		cauth = (idx % 4) == 3 ? 1 + (int)((idx >> 2) & 1) : 0;
 		cc.client_auth = sc.client_auth = cauth;
-		cc.chain_kind = (int)((idx >> 3) & 1);
+		cc.chain_kind = (int)((idx >> 3) % 3);      /* alone, with its intermediate, the RSA-4096 client */
 		sch = tp_chain_pick(1, keykind, 0, 0, sc.chain_kind, &schn);
 		cch = tp_chain_pick(0, 0, cauth, 0, cc.chain_kind, &cchn);
 		vf_distinct("chain_shape", "key%d s%zu:%zu c%zu:%zu", keykind, schn, sch[0].data_len, cchn, cchn ? cch[0].data_len : (size_t)0);
